@@ -95,7 +95,15 @@ def m_isinstance(interp, args, kwargs):
     from .interp import Closure, BoundMethod
     if isinstance(obj, (Closure, BoundMethod)):
         return any(t in (object, types.FunctionType) for t in tps)
+    # a model class (pyvc/pymodels) declares the library classes whose instances it stands for
+    stands_for = getattr(type(obj), '_pv_stands_for', None)
+    if stands_for and any(inspect_isclass(t) and issubclass(s, t) for t in tps for s in stands_for):
+        return True
     return isinstance(obj, tp)
+
+
+def inspect_isclass(t):
+    return isinstance(t, type)
 
 
 @model(builtins.len)
@@ -455,7 +463,13 @@ def m_next(interp, args, kwargs):
     if isinstance(it, SIter):
         return it.next(interp, args[1:] if len(args) > 1 else None)
     if isinstance(it, Opaque):
-        return interp.reg.call_opaque(interp, it, '__next__', [], {})
+        # an iterator known through its interface: `__next__` (may raise StopIteration by its own contract)
+        try:
+            return interp.reg.call_opaque(interp, it, '__next__', [], {})
+        except PyRaise as e:
+            if isinstance(e.exc, StopIteration) and len(args) > 1:
+                return args[1]
+            raise
     if isinstance(it, GenObj):
         try:
             return it.send(None)
